@@ -25,6 +25,19 @@ Cap(s) == IF Len(s) > MaxBad THEN SubSeq(s, 1, MaxBad) ELSE s
 
 TKInit == l = 1 /\ bad = <<>> /\ TLCSet(1, <<"unfinished">>)
 
+(* Stateful trace specs write their step as                                               *)
+(*     TKAdvance /\ <spec action for Trace[l]> /\ TKRecord(<failing clause names>)        *)
+(* where the clause names may be computed from primed variables (invariants evaluated in  *)
+(* the successor state).  (First-order on purpose: passing an action-level operator as an *)
+(* argument made TLC 10x slower.)                                                          *)
+TKAdvance == l <= Len(Trace) /\ l' = l + 1
+TKRecord(fails) ==
+    /\ bad' = Cap(bad \o Tag(fails, l))
+    /\ IF l = Len(Trace)
+          THEN TLCSet(1, bad') /\ PrintT(<<"VERDICT", Len(Trace), bad'>>)
+          ELSE TRUE
+Ev == Trace[l]
+
 TKStep(Check(_)) ==
     /\ l <= Len(Trace)
     /\ l' = l + 1
